@@ -125,12 +125,27 @@ func init() {
 					s.Unknown("bij/"+t.pkg+"/type", "-", "options type not found")
 					continue
 				}
+				// the option fields: those of the struct, and — for a field that is itself a struct of the module held by
+				// value (options grouped: `postProcessing{removePort, …}`) — the fields of that struct in its place
 				var fields []string
-				for _, f := range core.StructFields(optT) {
-					if f == "Parser" { // the embedded parser of a profile is not an option
-						continue
+				var leaves func(st *types.Struct, depth int)
+				leaves = func(st *types.Struct, depth int) {
+					for i := 0; i < st.NumFields(); i++ {
+						fv := st.Field(i)
+						if fv.Name() == "Parser" { // the embedded parser of a profile is not an option
+							continue
+						}
+						if nm, ok := fv.Type().(*types.Named); ok && depth < 2 && nm.Obj().Pkg() != nil && strings.HasPrefix(nm.Obj().Pkg().Path(), core.ModPath) {
+							if sub, ok := nm.Underlying().(*types.Struct); ok && nm.Obj().Name() != "PercentEncodeSet" {
+								leaves(sub, depth+1)
+								continue
+							}
+						}
+						fields = append(fields, fv.Name())
 					}
-					fields = append(fields, f)
+				}
+				if st, ok := optT.Underlying().(*types.Struct); ok {
+					leaves(st, 0)
 				}
 				writer := map[string][]string{}
 				sp := c.P.SSAPkg[t.pkg]
